@@ -49,7 +49,7 @@ type c08Scenario struct {
 
 func genC08(t *simrt.Tape, tier string) Scenario {
 	sc := &c08Scenario{probes: map[string]int{}}
-	sc.Kind = []string{"queue-ll", "stack-ll", "queue-slice", "stack-slice", "queue-ptr", "stack-ptr"}[t.Choose(6)]
+	sc.Kind = []string{"queue-ll", "stack-ll", "queue-slice", "stack-slice", "queue-ptr", "stack-ptr", "queue-chan"}[t.Choose(7)]
 	if strings.HasSuffix(sc.Kind, "-ptr") {
 		// pointer element type over the real LinkedListQueue; one of the first values is stored as a nil pointer
 		// (an element like any other)
@@ -66,6 +66,11 @@ func genC08(t *simrt.Tape, tier string) Scenario {
 	}
 	// a ConcurrentQueue/Stack is itself a Queue/Stack: it may be wrapped again, and both handles may be used
 	sc.Nested = t.Bool(1, 5)
+	if sc.Kind == "queue-chan" {
+		// the wrapped queue is the library's own bounded ChannelQueue, driven through the non-blocking calls only (its
+		// Put/Take block by contract, which under the wrapper's lock would be the caller's own deadlock)
+		sc.Bound = 1 + t.Choose(3)
+	}
 	if strings.HasSuffix(sc.Kind, "-slice") && t.Bool(1, 3) {
 		// the wrapped structure is bounded: it rejects insertions beyond its capacity with ErrQueueIsFull/ErrStackIsFull,
 		// which the wrapper hands through - and goes on working afterwards
@@ -103,6 +108,10 @@ func genC08(t *simrt.Tape, tier string) Scenario {
 				ops = append(ops, "Push")
 			case isStack:
 				ops = append(ops, "Pop")
+			case producer && sc.Kind == "queue-chan":
+				ops = append(ops, "Offer")
+			case sc.Kind == "queue-chan":
+				ops = append(ops, "Poll")
 			case producer:
 				ops = append(ops, []string{"Offer", "Put"}[t.Choose(2)])
 			default:
@@ -185,6 +194,9 @@ func (sc *c08Scenario) Run(s *simrt.Sim) {
 		stack = ll
 	case "queue-slice":
 		queue = &sliceQueue{s: s, bound: sc.Bound}
+	case "queue-chan":
+		queue = fpgo.NewChannelQueue[int](sc.Bound)
+		sc.probes["wrapped-ChannelQueue"]++
 	case "stack-slice":
 		stack = &sliceQueue{s: s, bound: sc.Bound}
 	}
